@@ -46,6 +46,12 @@ Proof.
   - destruct (c_pos c); [|discriminate]. destruct f; cbn; auto.
 Qed.
 
+Lemma guarded_nonpush : forall c f, is_push f = false -> guarded c f = false.
+Proof.
+  intros c f H. destruct (guarded c f) eqn:E; [|reflexivity].
+  apply guarded_push in E. congruence.
+Qed.
+
 Lemma ngbs_app : forall c l fs,
   no_guarded_before_start c l = true -> no_guarded_before_start c fs = true ->
   no_guarded_before_start c (l ++ fs) = true.
@@ -104,5 +110,234 @@ Proof.
   all: try assumption.
   all: try (intros; discriminate).
   all: try (intros; exfalso; congruence).
-  all: idtac.
-Admitted.
+  (* b_q *)
+  all: try (intros Hc; first [congruence | exact (Bq Hc) | apply Bq; congruence | specialize (Bq Hc); discriminate]; fail).
+  (* has_start of an extended log *)
+  all: try (intros; rewrite <- ?app_assoc; apply has_start_app_l; eauto; fail).
+  all: try (intros; rewrite !has_start_app; cbn [has_start existsb is_start orb];
+            match goal with |- context [has_start (log ?s0)] => destruct (has_start (log s0)) end; reflexivity).
+  all: try (intros; eauto; fail).
+  (* b_log: frames that are not pushes *)
+  all: try (apply ngbs_app; [exact Blog|apply ngbs_one; apply guarded_nonpush; reflexivity]).
+  all: try (apply ngbs_app; [exact Blog|apply ngbs_one; apply guarded_nonpush; destruct k; reflexivity]).
+  all: try (rewrite <- ?app_assoc; apply ngbs_app; [exact Blog|apply ngbs_start_first; reflexivity]).
+  (* b_log: a push leaves the delivery thread *)
+  all: try (match goal with |- no_guarded_before_start _ (_ ++ [?f]) = true =>
+              destruct (guarded c f) eqn:Hg;
+              [ apply ngbs_app_started; [exact Blog|]; eapply Bdl; [|exact Hg];
+                match goal with Hd : dl _ = _ |- _ => rewrite Hd; reflexivity end
+              | apply ngbs_app; [exact Blog|apply ngbs_one; exact Hg] ] end).
+  (* b_dl: a push enters the enqueue stage *)
+  all: try (intros f0 Hf Hg; inv_some Hf; unfold guarded in Hg;
+            destruct (c_var c) eqn:Hv;
+            [ destruct (c_fix_off0 c) eqn:Hfix; cbn [is_push is_real_push] in Hg;
+              try match goal with E : (po ?p =? 0) = true |- _ => rewrite E in Hg end;
+              try discriminate; try congruence; eapply Bsub; eauto
+            | destruct (c_pos c); cbn [andb is_pos_pub] in Hg;
+              try match goal with E : (po ?p =? 0) = true |- _ => rewrite E in Hg end;
+              try (destruct join); discriminate ]).
+  all: try (intros _; first [apply Bst; reflexivity
+                            | exfalso; assert (X : false = true) by (apply Bq; first [reflexivity|assumption]); discriminate]).
+  all: try (intros _;
+            first [ match goal with Hq : sub_quiet _ = true |- _ => exact Hq end
+                  | rewrite (e_pending c s IE); [reflexivity|congruence]
+                  | apply (e_cleanup c s IE); assumption ]).
+  (* LCheck on a publication *)
+  pose proof (check_pub_fields c s p lag) as F. cbv zeta in F.
+  destruct F as (F1 & F2 & F3 & F4 & F5 & F6 & F7 & F8 & F9 & F10 & F11 & F12 & F13 & F14 & F15 & F16).
+  pose proof (check_pub_ch c s p lag) as Fch.
+  match goal with E : dl s = DPub _ _ PCheck |- _ => rename E into Hd end.
+  constructor; rewrite ?F10, ?F11, ?F13; try assumption.
+  - intros Hv pos' pep' Hc. destruct (ch s) eqn:E; try congruence. eapply Bsub; eauto.
+  - intros f0 Hf Hg. destruct (dl (check_pub c s p lag)) as [|q lagq phq|] eqn:Ed; try discriminate.
+    + destruct phq; try discriminate. cbn in Hf. inv_some Hf.
+      destruct (check_pub_penq c s p lag q lagq Hd Ed) as [-> (pos0 & pep0 & Hs)].
+      unfold guarded in Hg. destruct (c_var c) eqn:Hv; [eapply Bsub; eauto|].
+      destruct (c_pos c) eqn:Hpos; [|discriminate]. cbn [andb is_pos_pub] in Hg.
+      apply Bst.
+      assert (Hw : in_window (pc s) = false).
+      { destruct (in_window (pc s)) eqn:Ew; [|reflexivity]. exfalso.
+        pose proof (i_entry_pc c s IS Hpos Ew) as Hen.
+        destruct (i_entry_dl c s IS Hen _ _ _ Hd) as [X|[X _]]; discriminate. }
+      pose proof (e_sub c s IE _ _ Hs) as Hcm.
+      destruct (pc s); try discriminate; reflexivity.
+    + destruct (check_pub_dl c s p lag) as [X|[X _]]; congruence.
+Qed.
+
+Record CInv (c : cfg) (s : st) : Prop := { c_s : SInv c s; c_e : EInv c s; c_b : BInv c s }.
+
+Lemma cinv_run : forall c ls s s', c_batch c = false -> CInv c s -> run c s ls = Some s' -> CInv c s'.
+Proof.
+  induction ls as [|l ls IH]; intros s s' Hp I H; cbn [run] in H.
+  - inv_some H. exact I.
+  - destruct (step c s l) as [s1|] eqn:E; [|discriminate].
+    eapply IH; [exact Hp| |exact H]. destruct I as [IS IE IB]. constructor.
+    + eapply sinv_step; eauto.
+    + eapply einv_step; eauto.
+    + eapply binv_step; eauto.
+Qed.
+
+Theorem c10_guarded_after_start : forall c ls s,
+  c_batch c = false -> run c init ls = Some s -> no_guarded_before_start c (log s) = true.
+Proof.
+  intros c ls s Hp H.
+  assert (I : CInv c s).
+  { eapply cinv_run; eauto. constructor; [apply sinv_init|apply einv_init|apply binv_init]. }
+  apply (b_log c s (c_b c s I)).
+Qed.
+
+(* ------------------------------------------------------------------ *)
+(* the per-variant readings                                             *)
+
+Lemma ngbs_ext_real : forall c l, (forall f, guarded c f = is_real_push f) ->
+  no_guarded_before_start c l = no_real_push_before_start l.
+Proof. intros c l H. induction l as [|f l IH]; [reflexivity|]. cbn. rewrite H, IH. reflexivity. Qed.
+Lemma ngbs_ext_push : forall c l, (forall f, guarded c f = is_push f) ->
+  no_guarded_before_start c l = no_push_before_start l.
+Proof. intros c l H. induction l as [|f l IH]; [reflexivity|]. cbn. rewrite H, IH. reflexivity. Qed.
+Lemma ngbs_ext_pos : forall c l, (forall f, guarded c f = is_pos_pub f) ->
+  no_guarded_before_start c l = no_pos_pub_before_start l.
+Proof. intros c l H. induction l as [|f l IH]; [reflexivity|]. cbn. rewrite H, IH. reflexivity. Qed.
+
+Theorem c10_client_after_start_real : forall c ls s,
+  c_var c = VClient -> c_fix_off0 c = false -> c_batch c = false ->
+  run c init ls = Some s -> no_real_push_before_start (log s) = true.
+Proof.
+  intros c ls s Hv Hf Hb H. rewrite <- (ngbs_ext_real c).
+  - eapply c10_guarded_after_start; eauto.
+  - intros f. unfold guarded. rewrite Hv, Hf. reflexivity.
+Qed.
+
+Theorem c10_client_after_start_patched : forall c ls s,
+  c_var c = VClient -> c_fix_off0 c = true -> c_batch c = false ->
+  run c init ls = Some s -> no_push_before_start (log s) = true.
+Proof.
+  intros c ls s Hv Hf Hb H. rewrite <- (ngbs_ext_push c).
+  - eapply c10_guarded_after_start; eauto.
+  - intros f. unfold guarded. rewrite Hv, Hf. reflexivity.
+Qed.
+
+Theorem c10_server_after_start_positioned : forall c ls s,
+  c_var c = VServer -> c_pos c = true -> c_batch c = false ->
+  run c init ls = Some s -> no_pos_pub_before_start (log s) = true.
+Proof.
+  intros c ls s Hv Hp Hb H. rewrite <- (ngbs_ext_pos c).
+  - eapply c10_guarded_after_start; eauto.
+  - intros f. unfold guarded. rewrite Hv, Hp. reflexivity.
+Qed.
+
+(* ------------------------------------------------------------------ *)
+(* oracle = specification                                               *)
+
+Lemma after_start_spec : forall l, no_push_before_start l = true <-> AfterStart l.
+Proof.
+  induction l as [|f l IH]; cbn [no_push_before_start].
+  - split; [|reflexivity]. intros _ a g b E. destruct a; discriminate.
+  - destruct (is_start f) eqn:Es.
+    + split; [|reflexivity]. intros _ a g b E Hp. destruct a as [|x a].
+      * cbn in E. inv_some E. destruct g; discriminate.
+      * cbn in E. inversion E; subst. exists x. split; [left; reflexivity|exact Es].
+    + rewrite andb_true_iff, negb_true_iff, IH. split.
+      * intros [Hn HA] a g b E Hp. destruct a as [|x a].
+        -- cbn in E. inv_some E. congruence.
+        -- cbn in E. inversion E; subst. destruct (HA a g b eq_refl Hp) as [y [Hy1 Hy2]].
+           exists y. split; [right; exact Hy1|exact Hy2].
+      * intros HA. split.
+        -- destruct (is_push f) eqn:Ep; [|reflexivity]. exfalso.
+           destruct (HA [] f l eq_refl Ep) as [y [[] _]].
+        -- intros a g b E Hp. destruct (HA (f :: a) g b) as [y [Hy1 Hy2]]; [cbn; rewrite E; reflexivity|exact Hp|].
+           destruct Hy1 as [<-|Hy1]; [congruence|]. exists y. auto.
+Qed.
+
+Lemma existsb_false_forall : forall (A : Type) (P : A -> bool) l,
+  existsb P l = false <-> (forall x, In x l -> P x = false).
+Proof.
+  intros A P l. induction l as [|a l IH]; cbn [existsb].
+  - split; [intros _ x []|reflexivity].
+  - rewrite orb_false_iff, IH. split.
+    + intros [Ha Hl] x [<-|Hx]; auto.
+    + intros H. split; [apply H; left; reflexivity|intros x Hx; apply H; right; exact Hx].
+Qed.
+
+Lemma before_end_spec : forall l, no_push_after_end l = true <-> BeforeEnd l.
+Proof.
+  induction l as [|f l IH]; cbn [no_push_after_end].
+  - split; [|reflexivity]. intros _ a g b x E. destruct a; discriminate.
+  - destruct (is_end f) eqn:Ee.
+    + rewrite negb_true_iff, existsb_false_forall. split.
+      * intros Hn a g b x E Hg Hx. destruct a as [|y a].
+        -- cbn in E. inv_some E. apply Hn. exact Hx.
+        -- cbn in E. inversion E; subst. apply Hn. apply in_or_app. right. right. exact Hx.
+      * intros HB x Hx. apply (HB [] f l x eq_refl Ee Hx).
+    + rewrite IH. split.
+      * intros HB a g b x E Hg Hx. destruct a as [|y a].
+        -- cbn in E. inv_some E. congruence.
+        -- cbn in E. inversion E; subst. eapply HB; eauto.
+      * intros HB a g b x E Hg Hx. apply (HB (f :: a) g b x); [cbn; rewrite E; reflexivity|exact Hg|exact Hx].
+Qed.
+
+Theorem c10_oracle_spec : forall l, c10_oracle l = true <-> C10Spec l.
+Proof.
+  intros l. unfold c10_oracle, C10Spec. rewrite andb_true_iff, after_start_spec, before_end_spec. tauto.
+Qed.
+
+(* ------------------------------------------------------------------ *)
+(* refutations for the code as it stands                                *)
+
+Lemma c10_refute : forall c ls,
+  (match run c init ls with Some s => negb (c10_oracle (log s)) | None => false end) = true ->
+  exists s, run c init ls = Some s /\ ~ C10Spec (log s).
+Proof.
+  intros c ls H. destruct (run c init ls) as [s|]; [|discriminate].
+  exists s. split; [reflexivity|]. intros HS. apply c10_oracle_spec in HS. rewrite HS in H. discriminate.
+Qed.
+
+(* (a) client subscribe command (non-positioned here; the same schedule works positioned):
+   a publication without offset is pushed between the hub registration and the reply *)
+Definition cfg_a := mkCfg VClient false false 0 0 true false false false false.
+Definition sched_a : list label :=
+  [LReserve; LStartBuf; LHubAdd; LPublishNoHist false; LDeliver 0%nat false; LEnqueue;
+   LHistRead; LMerge; LWriteReply; LCommit; LStopBuf].
+Theorem c10_refuted_offset0 : exists s, run cfg_a init sched_a = Some s /\ ~ C10Spec (log s).
+Proof. apply c10_refute. vm_compute. reflexivity. Qed.
+Example c10_refuted_offset0_log :
+  option_map log (run cfg_a init sched_a) = Some [FPub (mkP 0 0 false); FSubReply false [] 0 0].
+Proof. vm_compute. reflexivity. Qed.
+(* the patched model drops it *)
+Example c10_offset0_patched :
+  log (run_lenient (mkCfg VClient false false 0 0 true false false false true) init sched_a)
+  = [FSubReply false [] 0 0].
+Proof. vm_compute. reflexivity. Qed.
+
+(* (b) server-side Client.Subscribe commits before it writes the subscribe push: a join
+   (or any publication of a non-positioned channel) overtakes the push *)
+Definition cfg_b := mkCfg VServer true false 0 0 true false false false false.
+Definition sched_b : list label :=
+  [LReserve; LStartBuf; LHubAdd; LHistRead; LMerge; LCommit; LJoinEv; LDeliver 0%nat false; LCheck; LEnqueue;
+   LSrvPush; LStopBuf].
+Theorem c10_refuted_server_join : exists s, run cfg_b init sched_b = Some s /\ ~ C10Spec (log s).
+Proof. apply c10_refute. vm_compute. reflexivity. Qed.
+Example c10_refuted_server_join_log :
+  option_map log (run cfg_b init sched_b) = Some [FJoin; FSubPush 0 1].
+Proof. vm_compute. reflexivity. Qed.
+Definition cfg_b2 := mkCfg VServer false false 0 0 false false false false false.
+Definition sched_b2 : list label :=
+  [LReserve; LStartBuf; LHubAdd; LHistRead; LMerge; LCommit; LPublish false 100%nat; LDeliver 0%nat false;
+   LSync; LCheck; LEnqueue; LSrvPush; LStopBuf].
+Theorem c10_refuted_server_pub : exists s, run cfg_b2 init sched_b2 = Some s /\ ~ C10Spec (log s).
+Proof. apply c10_refute. vm_compute. reflexivity. Qed.
+
+(* (c) per-channel batching: unsubscribe deletes the channel writer while a broadcast sits
+   between CheckPosition and Enqueue; the enqueue re-creates the writer and its flush
+   writes the publication after the unsubscribe reply *)
+Definition cfg_c := mkCfg VClient true false 0 0 false false false true false.
+Definition sched_c : list label :=
+  [LReserve; LStartBuf; LHubAdd; LHistRead; LMerge; LWriteReply; LCommit; LStopBuf;
+   LPublish false 100%nat; LDeliver 0%nat false; LSync; LCheck; LUnsub UClient; LEnqueue;
+   LUnsubHub; LUnsubOut; LFlush].
+Theorem c10_refuted_batch_after_unsub : exists s, run cfg_c init sched_c = Some s /\ ~ C10Spec (log s).
+Proof. apply c10_refute. vm_compute. reflexivity. Qed.
+Example c10_refuted_batch_log :
+  option_map log (run cfg_c init sched_c)
+  = Some [FSubReply false [] 0 1; FUnsubReply; FPub (mkP 1 1 false)].
+Proof. vm_compute. reflexivity. Qed.
